@@ -71,7 +71,7 @@ def genVisCases (tier : String) (seed : Nat) (tagp : String) : Array Case := Id.
           pure s) rng
       else if i % 3 = 0 then genC01 { suffixes := false, maxDepth := 2, maxComps := 5 } rng
       else if i % 3 = 1 then genSupC02 2 rng
-      else genNestedSup { depth := 1, pairs := true, nestedPairs := true } rng
+      else genNestedSup { depth := 1, pairs := true, nestedPairs := true, groupNested := true } rng
     rng := rng'
     let kind := if i % 8 = 7 then "nested-properties" else if i % 3 = 0 then "simple" else if i % 3 = 1 then "nested" else "pairs"
     for v in [0:32] do
